@@ -103,6 +103,8 @@ def path_exists(fn, src, dst_pred, avoid=lambda pos, elem: False, include_src=Fa
             continue
         if dst_pred((b, len(elems)), "TERM"):
             return list(path)
+        if avoid((b, len(elems)), "TERM"):
+            continue
         if b == fn.exit:
             if dst_pred((b, 0), "EXIT"):
                 return list(path)
